@@ -367,6 +367,9 @@ def behaviour(cuqi, o, probes, vals=None, maxprod=0):
     return out
 
 
+FRESH_MARGIN = {"max_dev_over_tolerance": 0.0, "comparisons": 0}      # the only float tolerance of this check (everything else is exact)
+
+
 def fresh_compare(o, ref, xs):
     """`o` (a fully conditioned copy) against a freshly constructed distribution with the same parameters: logd, pdf,
     gradient at the candidate points and a seeded sample must agree (1e-9)"""
@@ -377,6 +380,12 @@ def fresh_compare(o, ref, xs):
             a = np.asarray(a.samples if hasattr(a, "samples") else a, dtype=float); b = np.asarray(b.samples if hasattr(b, "samples") else b, dtype=float)
         except Exception:  # noqa
             return True
+        if a.shape == b.shape and a.size:
+            fin = np.isfinite(a) & np.isfinite(b)
+            if fin.any():
+                ratio = float(np.max(np.abs(a[fin] - b[fin]) / (1e-11 + 1e-9 * np.abs(b[fin]))))
+                FRESH_MARGIN["max_dev_over_tolerance"] = max(FRESH_MARGIN["max_dev_over_tolerance"], ratio)
+            FRESH_MARGIN["comparisons"] += 1
         return a.shape == b.shape and bool(np.allclose(a, b, rtol=1e-9, atol=1e-11, equal_nan=True))
     bad = []
     for i, x in enumerate(xs):
@@ -1683,6 +1692,7 @@ def run_programs(ctx, cuqi, tracer, n, thorough, n_step=0, n_rejoin=0, n_dense=0
                 phist[kk] = phist.get(kk, 0) + 1
         judge(ctx, p, out, desc)
     ctx.extra_cov["op_result_kinds"] = hist
+    ctx.extra_cov["fresh_compare_margin"] = dict(FRESH_MARGIN, tolerance="rtol 1e-9 + atol 1e-11")
     ctx.extra_cov["reduce_program_result_kinds"] = rhist
     ctx.extra_cov["positional_ops_result_kinds"] = phist
     return progs
@@ -2167,28 +2177,38 @@ def run(ctx):
                         "user callables do not mutate their arguments or captured arrays (in-place numpy mutation inside user callables is out of scope)",
                         "behavioural fingerprints are compared exactly (same code path, same inputs, single thread)"]
     ctx.c11_shrunk = {}
+    import time as _time
+    phases = {}
+
+    def timed(label, f, *a, **k):
+        t0 = _time.process_time()
+        try:
+            return f(*a, **k)
+        finally:
+            phases[label] = round(phases.get(label, 0.0) + _time.process_time() - t0, 2)
+            ctx.extra_cov["phase_cpu_seconds"] = phases
+    q = not thorough
     # generated user programs on originals whose name is inferred from the Python variable (first look-up at different times)
     from harness.props import c11_names
-    c11_names.inferred_name_programs(ctx, cuqi, 60 if not thorough else 600)
+    timed("inferred_names", c11_names.inferred_name_programs, ctx, cuqi, 60 if q else 600)
     # lazily inferred default geometry (Model/C11_geom.lean, `geo` protocol): tie + history-independence oracle
     from harness.props import c11_geom
-    c11_geom.geometry_programs(ctx, cuqi, 30 if not thorough else 600, thorough)
+    timed("lazy_geometry", c11_geom.geometry_programs, ctx, cuqi, 24 if q else 600, thorough)
     # RegularizedGaussian-family originals whose conditioning variable is given directly as None
     from harness.props import c11_reg
-    c11_reg.regularized_none_programs(ctx, cuqi, 36 if not thorough else 360)
+    timed("regularized_none", c11_reg.regularized_none_programs, ctx, cuqi, 30 if q else 360)
     # the conditioning call stream of the real Gibbs samplers vs the model's `streamOps` (Model/C11_gibbs.lean)
     from harness.props import c11_gibbs
-    c11_gibbs.gibbs_streams(ctx, cuqi, thorough)
+    timed("gibbs_streams", c11_gibbs.gibbs_streams, ctx, cuqi, thorough)
     tracer = Tracer(cuqi)
     tracer.install()
     try:
-        n = 55 if not thorough else 40 * ctx.scale
-        sc = 1 if not thorough else ctx.scale
-        q = not thorough
-        run_programs(ctx, cuqi, tracer, n, thorough, n_step=(18 if q else 13 * sc), n_rejoin=(12 if q else 9 * sc),
-                     n_dense=(12 if q else 9 * sc), n_inter=(12 if q else 9 * sc), n_reduce=(14 if q else 9 * sc))
-        sampler_scenarios(ctx, cuqi, tracer, thorough)
-        deep_chains(ctx, cuqi)
-        scope_scenarios(ctx, cuqi)
+        n = 45 if q else 40 * ctx.scale
+        sc = 1 if q else ctx.scale
+        timed("programs", run_programs, ctx, cuqi, tracer, n, thorough, n_step=(14 if q else 13 * sc), n_rejoin=(10 if q else 9 * sc),
+              n_dense=(10 if q else 9 * sc), n_inter=(10 if q else 9 * sc), n_reduce=(12 if q else 9 * sc))
+        timed("sampler_scenarios", sampler_scenarios, ctx, cuqi, tracer, thorough)
+        timed("deep_chains", deep_chains, ctx, cuqi)
+        timed("scope_scenarios", scope_scenarios, ctx, cuqi)
     finally:
         tracer.uninstall()
